@@ -258,6 +258,7 @@ static void l_case(uint64_t idx, void *ctx)
 int main(int argc, char **argv)
 {
     mc_init("C10", argc, argv);
+    libast_debug_level = (unsigned) mc_dlevel();        /* --dlevel=N: the whole run at runtime debug level N (default 0) */
     int N = (int) mc_arg_int("N", mc_thorough() ? 4 : 3);
     names_once();
     snprintf(g_edir, sizeof g_edir, "%s/ed", scratch()); snprintf(g_odir, sizeof g_odir, "%s/od", scratch());
